@@ -10,7 +10,7 @@
 //	tags       unit correspondence of tag.Parse / Set.Line / tag.MapToSet + SPEC search parse∘line∘parse = parse,
 //	           line determinism under Go's map order, independence of spelling
 //	fields     unit correspondence of NewFieldsFromKVString / AsKVString / Check / Concat + SPEC search (round trip,
-//	           well-formedness of the binary encoding) + pipe provenance field.Parse(line) = the set's pairs
+//	           well-formedness of the binary encoding) + pipe provenance fieldsParseQuiet(line) = the set's pairs
 //	system     lrsrv: events written through the RPC client with generated tags / fields, Tags / Fields of query
 //	           results parsed back and compared with what was sent; clean restart (persisted tindex keys re-read)
 package main
@@ -21,6 +21,7 @@ import (
 	"encoding/json"
 	"fmt"
 	"os"
+	"path/filepath"
 	"sort"
 	"strconv"
 	"strings"
@@ -157,6 +158,29 @@ func (h hexInput) str() string {
 }
 
 func setsEqual(a, b tag.Set) bool { return a.SubsetOf(b) && b.SubsetOf(a) }
+
+// the parsers must answer every input: a panic is recorded as a failure of the property and turned into an error so
+// that the section goes on
+func tagParse(t string) (s tag.Set, err error) {
+	if p := vh.Recover(func() { s, err = tag.Parse(t) }); p != "" {
+		res.SpecFail(vh.SpecFailure{Section: "tags", Kind: "panic", Input: hin(t), Impl: p, Spec: "no panic", What: "tag.Parse panics"})
+		return tag.EmptySet, fmt.Errorf("panic: %s", p)
+	}
+	return
+}
+
+func fieldsParse(t string) (f field.Fields, err error) {
+	if p := vh.Recover(func() { f, err = field.NewFieldsFromKVString(t) }); p != "" {
+		res.SpecFail(vh.SpecFailure{Section: "fields", Kind: "panic", Input: hin(t), Impl: p, Spec: "no panic", What: "NewFieldsFromKVString panics"})
+		return "", fmt.Errorf("panic: %s", p)
+	}
+	return
+}
+
+func fieldsParseQuiet(t string) field.Fields {
+	f, _ := fieldsParse(t)
+	return f
+}
 
 func kvField(ans, key string) string {
 	for _, f := range strings.Fields(ans) {
@@ -516,8 +540,8 @@ func sectionTags(rng *vh.Rng) {
 					q[i] = p2[j]
 				}
 				t2 := spellText(rng, q)
-				s1, e1 := tag.Parse(t1)
-				s2, e2 := tag.Parse(t2)
+				s1, e1 := tagParse(t1)
+				s2, e2 := tagParse(t2)
 				if e1 == nil && e2 == nil && setsEqual(s1, s2) {
 					res.Dist(sec, "spelling-pairs")
 					if s1.Line() != s2.Line() {
@@ -534,7 +558,7 @@ func sectionTags(rng *vh.Rng) {
 			}
 			set := tag.MapToSet(m)
 			line := string(set.Line())
-			s2, err := tag.Parse(line)
+			s2, err := tagParse(line)
 			oc := "same"
 			if err != nil {
 				oc = "err"
@@ -668,7 +692,7 @@ func reportFieldsRT(section string, in interface{}, oc, kv string, wf bool, m st
 
 func sectionFields(rng *vh.Rng) {
 	sec := res.Section("fields", "spec-search",
-		"field texts generated like tag texts (duplicates and empty values allowed) plus long pieces around the 255 byte limit (253..257 bytes raw, quoted, quoted with bytes that grow when unquoted); IMPL NewFieldsFromKVString → AsKVString → NewFieldsFromKVString, field.Check, Concat vs MODEL (frt/fromkv/askv/check) vs SPEC (same bytes, well-formed); pipe provenance: field.Parse(set.Line()) must list exactly the set's pairs. non-trivial = accepted non-empty list, distinct by text")
+		"field texts generated like tag texts (duplicates and empty values allowed) plus long pieces around the 255 byte limit (253..257 bytes raw, quoted, quoted with bytes that grow when unquoted); IMPL NewFieldsFromKVString → AsKVString → NewFieldsFromKVString, field.Check, Concat vs MODEL (frt/fromkv/askv/check) vs SPEC (same bytes, well-formed); pipe provenance: fieldsParseQuiet(set.Line()) must list exactly the set's pairs. non-trivial = accepted non-empty list, distinct by text")
 	n := 80000
 	if args.Thorough {
 		n = 2000000
@@ -728,12 +752,12 @@ func sectionFields(rng *vh.Rng) {
 		res.Eval(sec, "")
 		res.Dist(sec, "binary:"+first(e))
 	}
-	// provenance: fields of a canonical line (pipe.worker: field.Parse(srcTags))
+	// provenance: fields of a canonical line (pipe.worker: fieldsParseQuiet(srcTags))
 	addProv := func(m map[string]string) {
 		set := tag.MapToSet(m)
 		line := string(set.Line())
-		if s2, err := tag.Parse(line); err == nil && setsEqual(set, s2) {
-			pf, perr := field.NewFieldsFromKVString(line)
+		if s2, err := tagParse(line); err == nil && setsEqual(set, s2) {
+			pf, perr := fieldsParse(line)
 			items, _ := decodeFields(string(pf))
 			want := flatSorted(m)
 			oc := "same"
@@ -746,7 +770,7 @@ func sectionFields(rng *vh.Rng) {
 			res.Eval(sec, "prov"+line)
 			in := map[string]interface{}{"pairs_hex": strings.Fields(hexJoin(want)), "line": fmt.Sprintf("%q", line)}
 			provs[len(b.lines)] = provPend{in, oc, string(pf)}
-			b.add("field.NewFieldsFromKVString(Set.Line())", strings.TrimRight("prov "+hexJoin(want), " "), "", in)
+			b.add("fieldsParse(Set.Line())", strings.TrimRight("prov "+hexJoin(want), " "), "", in)
 		}
 		addText(line)
 	}
@@ -827,7 +851,7 @@ func sectionFields(rng *vh.Rng) {
 		}
 		if p.oc != "same" {
 			f := vh.SpecFailure{Section: "fields", Kind: "provenance-differs", Input: p.in, Impl: p.oc + " items=" + vh.HxS(p.pf), Spec: "the pairs of the set", Model: m, ImplEqModel: eq,
-				What: "field.Parse(tag line) (the provenance fields a pipe attaches) does not list the names and values of the tag set although tag.Parse reads the line back"}
+				What: "fieldsParseQuiet(tag line) (the provenance fields a pipe attaches) does not list the names and values of the tag set although tag.Parse reads the line back"}
 			if eq && kvField(m, "qkey") == "1" {
 				f.Finding = findingQKey
 			}
@@ -841,14 +865,27 @@ func sectionFields(rng *vh.Rng) {
 // system
 
 type sysCase struct {
-	Tags    hexInput `json:"tags"`
-	Fields  hexInput `json:"fields"`
-	Fields2 hexInput `json:"event_fields"`
+	Tags    hexInput   `json:"tags"`
+	Fields  hexInput   `json:"fields"`
+	Fields2 hexInput   `json:"event_fields"`
+	More    []hexInput `json:"more_event_fields,omitempty"` // further events of the same write (same partition, consecutive records)
 }
 
 type sysBatch struct {
 	Cases   []sysCase `json:"cases"`
 	Restart bool      `json:"restart"`
+}
+
+// spellPairsQuoted: every value through strconv.Quote (always accepted; the stored bytes are exactly the values)
+func spellPairsQuoted(ps [][2]string) string {
+	var sb strings.Builder
+	for i, p := range ps {
+		if i > 0 {
+			sb.WriteString(",")
+		}
+		sb.WriteString(strconv.Quote(p[0]) + "=" + strconv.Quote(p[1]))
+	}
+	return sb.String()
 }
 
 func genSysBatch(rng *vh.Rng, k int) sysBatch {
@@ -874,18 +911,72 @@ func genSysBatch(rng *vh.Rng, k int) sysBatch {
 		}
 		tt, ft := spellText(rng, q), spellText(rng, fp)
 		for try := 0; try < 6; try++ { // mostly accepted writes; the last attempt is kept whatever it is
-			if _, err := tag.Parse(tt); err == nil {
+			if _, err := tagParse(tt); err == nil {
 				break
 			}
 			tt = spellText(rng, q)
 		}
+		if _, err := tagParse(tt); err != nil {
+			// the names themselves are not acceptable: plain names, the generated values quoted
+			var sbq strings.Builder
+			for a, p := range q {
+				if a > 0 {
+					sbq.WriteString(", ")
+				}
+				name := p[0]
+				if name != "id" {
+					name = []string{"a", "b", "k1", "zz", "~t"}[a%5]
+				}
+				sbq.WriteString(name + "=" + strconv.Quote(p[1]))
+			}
+			tt = sbq.String()
+		}
 		for try := 0; try < 6; try++ {
-			if _, err := field.NewFieldsFromKVString(ft); err == nil {
+			if _, err := fieldsParse(ft); err == nil {
 				break
 			}
 			ft = spellText(rng, fp)
 		}
-		sb.Cases = append(sb.Cases, sysCase{Tags: hin(tt), Fields: hin(ft), Fields2: hin(spellText(rng, genPairs(rng)))})
+		if _, err := fieldsParse(ft); err != nil && rng.Chance(3, 4) {
+			ft = spellPairsQuoted(fp)
+		}
+		c := sysCase{Tags: hin(tt), Fields: hin(ft), Fields2: hin(spellText(rng, genPairs(rng)))}
+		if rng.Chance(2, 3) {
+			// several events in one write: consecutive records of one partition, messages of equal length; event-level
+			// fields: the same names with values of equal length but different content (a cache keyed on the previous
+			// event's fields must not confuse them), identical fields, or unrelated fields
+			ep := genPairs(rng)
+			for j := range ep {
+				if len(ep[j][0]) > 40 || len(ep[j][1]) > 40 || ep[j][1] == "" {
+					ep[j] = [2]string{"lvl", "info"}
+				}
+			}
+			if len(ep) == 0 {
+				ep = [][2]string{{"lvl", "info"}}
+			}
+			mode := rng.Intn(4)
+			c.Fields2 = hin(spellPairsQuoted(ep))
+			for j := 1 + rng.Intn(4); j > 0; j-- {
+				switch mode {
+				case 0, 1: // same names, same value lengths, different content
+					vp := make([][2]string, len(ep))
+					for a, p := range ep {
+						v := []byte(p[1])
+						v[len(v)-1] = "abcdefghij"[(int(v[len(v)-1])+j)%10]
+						if rng.Bool() {
+							v[0] = "klmnopqrst"[(int(v[0])+j)%10]
+						}
+						vp[a] = [2]string{p[0], string(v)}
+					}
+					c.More = append(c.More, hin(spellPairsQuoted(vp)))
+				case 2:
+					c.More = append(c.More, c.Fields2)
+				default:
+					c.More = append(c.More, hin(spellText(rng, genPairs(rng))))
+				}
+			}
+		}
+		sb.Cases = append(sb.Cases, c)
 	}
 	sb.Restart = rng.Chance(1, 2)
 	return sb
@@ -912,17 +1003,39 @@ func runSysBatch(sb sysBatch, sec *vh.Section) {
 		written  bool
 		tagsAns  string
 		fldsSafe bool
+		evf      hexInput
 	}
+	partitions := 0
 	exps := map[string]*exp{}
 	var lines []string
 	var order []string
 	for i, c := range sb.Cases {
-		t, f, f2 := c.Tags.str(), c.Fields.str(), c.Fields2.str()
-		set, perr := tag.Parse(t)
-		wf, ferr := field.NewFieldsFromKVString(f)
+		t, f := c.Tags.str(), c.Fields.str()
+		evf := []string{c.Fields2.str()}
+		for _, m := range c.More {
+			evf = append(evf, m.str())
+		}
+		set, perr := tagParse(t)
+		wf, ferr := fieldsParse(f)
+		// a text on which a parser panics is already recorded as a failure by the wrappers; it is not sent to the server
+		// (the same parser runs there in a goroutine of the RPC layer: the panic would end this process, not the case)
+		panics := (perr != nil && strings.HasPrefix(perr.Error(), "panic:")) || (ferr != nil && strings.HasPrefix(ferr.Error(), "panic:"))
+		for _, ef := range evf {
+			if _, err := fieldsParse(ef); err != nil && strings.HasPrefix(err.Error(), "panic:") {
+				panics = true
+			}
+		}
+		if panics {
+			res.Dist(sec, "not-sent:parser-panics")
+			continue
+		}
 		var wr api.WriteResult
-		msg := strconv.Itoa(i)
-		err := srv.Client.Write(ctx, t, f, []*api.LogEvent{{Timestamp: int64(i + 1), Message: msg, Fields: f2}}, &wr)
+		var evs []*api.LogEvent
+		for j, ef := range evf {
+			// messages of one case have equal length; timestamps keep a case's events consecutive in the merged result
+			evs = append(evs, &api.LogEvent{Timestamp: int64(i*10 + j + 1), Message: fmt.Sprintf("%d.%d", i, j), Fields: ef})
+		}
+		err := srv.Client.Write(ctx, t, f, evs, &wr)
 		if err == nil {
 			err = wr.Err
 		}
@@ -939,13 +1052,18 @@ func runSysBatch(sb sysBatch, sec *vh.Section) {
 		if err != nil {
 			continue
 		}
-		all := string(wf) + string(field.Parse(f2))
-		if _, ok := decodeFields(all); !ok {
-			continue
+		partitions++
+		res.Dist(sec, fmt.Sprintf("events-per-write=%d", len(evf)))
+		for j, ef := range evf {
+			all := string(wf) + string(fieldsParseQuiet(ef))
+			if _, ok := decodeFields(all); !ok {
+				continue
+			}
+			msg := fmt.Sprintf("%d.%d", i, j)
+			exps[msg] = &exp{c: c, set: set, flds: field.Fields(all), evf: hin(ef)}
+			order = append(order, msg)
+			lines = append(lines, "rt "+vh.HxS(t))
 		}
-		exps[msg] = &exp{c: c, set: set, flds: field.Fields(all)}
-		order = append(order, msg)
-		lines = append(lines, "rt "+vh.HxS(t))
 	}
 	if len(order) == 0 {
 		return
@@ -996,7 +1114,7 @@ func runSysBatch(sb sysBatch, sec *vh.Section) {
 			if vh.HxS(ev.Tags) != modelLine {
 				res.Mismatch(vh.Mismatch{Section: "system", Function: "result Tags (" + phase + ")", Input: sb, Impl: vh.HxS(ev.Tags), Model: modelLine})
 			}
-			got, perr := tag.Parse(ev.Tags)
+			got, perr := tagParse(ev.Tags)
 			oc := "same"
 			if perr != nil {
 				oc = "err"
@@ -1005,10 +1123,10 @@ func runSysBatch(sb sysBatch, sec *vh.Section) {
 			}
 			reportTagsRTk("system", map[string]interface{}{"phase": phase, "tags": e.c.Tags, "batch": sb}, oc, ev.Tags, e.tagsAns, lineKey)
 			// Fields
-			gf, ferr := field.NewFieldsFromKVString(ev.Fields)
+			gf, ferr := fieldsParse(ev.Fields)
 			if ferr != nil || gf != e.flds {
 				want, _ := decodeFields(string(e.flds))
-				f := vh.SpecFailure{Section: "system", Kind: "reparse-differs", Input: map[string]interface{}{"phase": phase, "fields": e.c.Fields, "event_fields": e.c.Fields2, "batch": sb},
+				f := vh.SpecFailure{Section: "system", Kind: "reparse-differs", Input: map[string]interface{}{"phase": phase, "message": ev.Message, "fields": e.c.Fields, "event_fields": e.evf, "batch": sb},
 					Impl: fmt.Sprintf("Fields=%q err=%v", ev.Fields, ferr), Spec: fmt.Sprintf("%q", want),
 					What: "the Fields text of a query result does not parse back to the fields that were written"}
 				// attribute through the model: the model's AsKVString of the same binary fields and its class
@@ -1031,6 +1149,26 @@ func runSysBatch(sb sysBatch, sec *vh.Section) {
 				res.SpecFail(vh.SpecFailure{Section: "system", Kind: "event-missing", Input: sb, Impl: "event " + m + " not returned (" + phase + ")", Spec: "returned", What: "a written event is not returned by SELECT"})
 			}
 		}
+		// SHOW PARTITIONS: one partition per written tag set (every case carries its own id pair)
+		if out, err := srv.Exec("show partitions"); err == nil {
+			n := -1
+			fmt.Sscanf(out, "%d partitions", &n)
+			res.Dist(sec, "show-partitions")
+			if n != partitions {
+				res.SpecFail(vh.SpecFailure{Section: "system", Kind: "partition-listed-twice", Input: map[string]interface{}{"phase": phase, "batch": sb}, Impl: fmt.Sprintf("%d partitions listed", n), Spec: fmt.Sprintf("%d", partitions),
+					What: "SHOW PARTITIONS does not list exactly one partition per written tag set"})
+			}
+		}
+		// the persisted tag index: its keys must be exactly the canonical lines of the written sets (MODEL), each key must
+		// be read back by tag.Parse as the set it stands for and be that set's line (SPEC)
+		checkIndexKeys(dir, phase, sb, sec, func(key string) (string, tag.Set, bool) {
+			for _, m := range order {
+				if kvField(exps[m].tagsAns, "line") == vh.HxS(key) {
+					return exps[m].tagsAns, exps[m].set, true
+				}
+			}
+			return "", tag.EmptySet, false
+		}, partitions)
 	}
 	check("live")
 	if sb.Restart {
@@ -1062,6 +1200,45 @@ func runSysBatch(sb sysBatch, sec *vh.Section) {
 		res.Dist(sec, "restart")
 		waitReadable()
 		check("restarted")
+	}
+}
+
+// checkIndexKeys reads <dir>/tindex/tindex.dat (a JSON object keyed by tag line)
+func checkIndexKeys(dir, phase string, sb sysBatch, sec *vh.Section, caseOf func(key string) (string, tag.Set, bool), partitions int) {
+	data, err := os.ReadFile(filepath.Join(dir, "tindex", "tindex.dat"))
+	if err != nil {
+		res.Note("system: tindex.dat not readable: %v", err)
+		return
+	}
+	var keys map[string]json.RawMessage
+	if err := json.Unmarshal(data, &keys); err != nil {
+		res.SpecFail(vh.SpecFailure{Section: "system", Kind: "index-file-unreadable", Input: sb, Impl: err.Error(), Spec: "a JSON object", What: "tindex.dat is not a JSON object"})
+		return
+	}
+	res.Dist(sec, "index-keys-checked")
+	in := func(k string) interface{} {
+		return map[string]interface{}{"phase": phase, "key": hin(k), "batch": sb}
+	}
+	for k := range keys {
+		ans, want, ok := caseOf(k)
+		if !ok {
+			res.Mismatch(vh.Mismatch{Section: "system", Function: "persisted tindex keys (" + phase + ")", Input: in(k), Impl: "key " + vh.HxS(k), Model: "not the canonical line of any written set"})
+			res.SpecFail(vh.SpecFailure{Section: "system", Kind: "index-key-not-canonical", Input: in(k), Impl: fmt.Sprintf("key %q", k), Spec: "every key is the line the system emits for a written tag set",
+				What: "the persisted tag index holds a key that is not the canonical line of a written tag set (the spelling a client used, or a second key for one partition)"})
+			continue
+		}
+		got, perr := tagParse(k)
+		oc := "same"
+		if perr != nil {
+			oc = "err"
+		} else if !setsEqual(got, want) {
+			oc = "diff"
+		}
+		reportTagsRTk("system", in(k), oc, k, ans, "line")
+	}
+	if len(keys) != partitions {
+		res.SpecFail(vh.SpecFailure{Section: "system", Kind: "index-key-count", Input: map[string]interface{}{"phase": phase, "batch": sb}, Impl: fmt.Sprintf("%d keys", len(keys)), Spec: fmt.Sprintf("%d partitions", partitions),
+			What: "the persisted tag index does not hold exactly one key per written tag set"})
 	}
 }
 
